@@ -10,6 +10,8 @@ Op lines (every field one word):
     tmo  <idx> … same …                       (short deadline: the deadline test may answer either way)
     imm  <idx> … same …                       (deadline already passed at entry: the test answers yes)
     race <idx> … same as wake …               (a fast entry-race round)
+    sq   <idx> … same …                       (like tmo: one wait of a sequence of waits on one control; earlier
+                                               waits of the sequence timed out, which changes nothing)
     trk  <idx> … same …                       (like tmo; `thr` = the trickle of non-enabling ops that ran)
 
 ops: `sent:N  ack:F:OFF  cancel:R  adv:F  res:F:OFF  push:OFF:LEN`;
@@ -129,7 +131,7 @@ def step (st : Unit) (ws : List String) : Unit × String :=
     | some k, some su, some th => (st, multiAnswer idx win k su th)
     | _, _, _ => (st, idx ++ " bad-op")
   | [cmd, idx, kind, len, win, su, th, ord, got, fin] =>
-    if cmd = "wake" ∨ cmd = "race" ∨ cmd = "tmo" ∨ cmd = "imm" ∨ cmd = "trk" then
+    if cmd = "wake" ∨ cmd = "race" ∨ cmd = "tmo" ∨ cmd = "imm" ∨ cmd = "trk" ∨ cmd = "sq" then
       match field "setup" su, field "thr" th, field "order" ord, field "got" got, field "fin" fin with
       | some su, some th, some ord, some got, some fin =>
         (st, answer idx (if cmd = "wake" ∨ cmd = "race" then [false] else if cmd = "imm" then [true] else [false, true]) kind len win su th ord got fin)
